@@ -341,7 +341,7 @@ def grids_3d(draw, nfilt, nmin=1, nmax=6, apmin=1, apmax=8):
 def distance_setup(draw, apertures, nfilt):
     """theta per filter, distance range, logd_step; theta*dmin >= (1+1e-9)*smallest aperture by construction."""
     step = draw(st.one_of(st.sampled_from([0.02, 0.025, 0.1, 0.5, 1.0]), logfloat(0.005, 1.)))
-    shape = draw(st.sampled_from(['single', 'within_step', 'many', 'integer_ratio', 'beyond']))
+    shape = draw(st.sampled_from(['many', 'integer_ratio', 'beyond', 'within_step', 'single']))
     theta = draw(st.lists(st.floats(0.1, 30., allow_nan=False), min_size=nfilt, max_size=nfilt))
     amin, amax = apertures[0], apertures[-1]
     # smallest distance allowed [kpc]: theta_min * d * 1000 >= amin
